@@ -138,3 +138,98 @@ pub fn errors(_args: &[String]) -> i32 {
     }
     0
 }
+
+// ---------------------------------------------------------------------------------------------------------------
+// X05 (spec/ErrorObject.tla): one Error object threaded through a history of builder calls; the projection of its
+// state is reported after the constructor and after every call.
+
+fn project(e: &Error, customs: &[String]) -> Value {
+    let (kind, wire, duration) = match e.kind() {
+        ErrorKind::Service(s) => ("service", json!({"code": conjure_serde::json::to_string(s.error_code()).unwrap().trim_matches('"'),
+                                                     "name": s.error_name(), "parameters": s.parameters()}), Value::Null),
+        ErrorKind::Throttle(t) => (if t.duration().is_some() { "throttle_for" } else { "throttle" }, Value::Null,
+                                   json!(t.duration().map(|d| d.as_millis() as u64))),
+        ErrorKind::Unavailable(_) => ("unavailable", Value::Null, Value::Null),
+        _ => ("other", Value::Null, Value::Null),
+    };
+    let bts: Vec<String> = e.backtraces().iter().map(|b| {
+        let text = format!("{b:?}");
+        if customs.contains(&text) { text } else { "captured".to_string() }
+    }).collect();
+    json!({"kind": kind, "wire": wire, "duration_ms": duration, "cause_safe": e.cause_safe(), "cause": e.cause().to_string(),
+           "safe": params(e.safe_params()), "unsafe": params(e.unsafe_params()),
+           "safe_len": e.safe_params().len(), "unsafe_len": e.unsafe_params().len(),
+           "safe_empty": e.safe_params().is_empty(), "unsafe_empty": e.unsafe_params().is_empty(), "bts": bts})
+}
+
+fn errobj_one(case: &Value) -> Result<Value, String> {
+    let mut fields = vec![];
+    let mut safe = vec![];
+    let decl_val = case["decl_val"].as_str().unwrap_or("v1");
+    for p in case["decl"].as_array().ok_or("decl")? {
+        let name = intern(p["k"].as_str().ok_or("k")?);
+        match p["d"].as_str().unwrap_or("absent") {
+            "safe" => {
+                safe.push(name);
+                fields.push((name, val_from_json(&json!({"k": "str", "v": decl_val}))?));
+            }
+            "unsafe" => fields.push((name, val_from_json(&json!({"k": "str", "v": decl_val}))?)),
+            _ => {}
+        }
+    }
+    safe.sort();
+    let mk = || DynError {
+        code: ErrorCode::Conflict,
+        name: "Verif:Obj".to_string(),
+        instance: None,
+        safe_args: intern_slice(safe.clone()),
+        fields: DynVal::Struct(fields.clone()),
+    };
+    let d = std::time::Duration::from_millis(1500);
+    let mut e = match case["ctor"].as_str().unwrap_or("") {
+        "service" => Error::service("cause", mk()),
+        "service_safe" => Error::service_safe("cause", mk()),
+        "propagated" => Error::propagated_service("cause", conjure_error::encode(&mk())),
+        "propagated_safe" => Error::propagated_service_safe("cause", conjure_error::encode(&mk())),
+        "throttle" => Error::throttle("cause"),
+        "throttle_safe" => Error::throttle_safe("cause"),
+        "throttle_for" => Error::throttle_for("cause", d),
+        "throttle_for_safe" => Error::throttle_for_safe("cause", d),
+        "unavailable" => Error::unavailable("cause"),
+        "unavailable_safe" => Error::unavailable_safe("cause"),
+        "internal" => Error::internal("cause"),
+        "internal_safe" => Error::internal_safe("cause"),
+        other => return Err(format!("unknown constructor {other}")),
+    };
+    let customs: Vec<String> = case["customs"].as_array().map(|a| a.iter().filter_map(|v| v.as_str().map(String::from)).collect()).unwrap_or_default();
+    let mut states = vec![project(&e, &customs)];
+    for c in case["hist"].as_array().ok_or("hist")? {
+        let k = intern(c["k"].as_str().unwrap_or("-"));
+        let v = c["v"].as_str().unwrap_or("-").to_string();
+        e = match c["op"].as_str().unwrap_or("") {
+            "safe" => e.with_safe_param(k, v),
+            "unsafe" => e.with_unsafe_param(k, v),
+            "bt" => e.with_backtrace(),
+            "custom" => e.with_custom_safe_backtrace(v),
+            other => return Err(format!("unknown call {other}")),
+        };
+        states.push(project(&e, &customs));
+    }
+    Ok(json!({"states": states}))
+}
+
+pub fn errobj(_args: &[String]) -> i32 {
+    silence_panics();
+    for case in read_cases() {
+        let id = case["id"].clone();
+        match catch(|| errobj_one(&case)) {
+            Ok(Ok(mut v)) => {
+                v["id"] = id;
+                emit(&v);
+            }
+            Ok(Err(e)) => emit(&json!({"id": id, "skip": e})),
+            Err(p) => emit(&json!({"id": id, "panic": p})),
+        }
+    }
+    0
+}
